@@ -89,6 +89,15 @@ func classifyPos(c *Ctx, p *tak.Position) {
 	if over, _ := p.GameOver(); over {
 		c.Count("pos.over")
 	}
+	ng := len(r.WG) + len(r.BG)
+	switch {
+	case ng > 2*p.Size():
+		c.Count("pos.groups>2size")
+	case len(r.WG) > p.Size() || len(r.BG) > p.Size():
+		c.Count("pos.onecolour.groups>size")
+	case ng > p.Size():
+		c.Count("pos.groups>size")
+	}
 }
 
 func genC01(c *Ctx) {
@@ -255,9 +264,12 @@ func genC02(c *Ctx) {
 	n := c.Scale(24000, 2400000)
 	for k := 0; k < n; k++ {
 		var p *tak.Position
-		if c.R.Chance(1, 2) {
+		if x := c.R.Intn(10); x < 4 {
 			p = roadBoard(c.R, 3+c.R.Intn(6))
 			c.Count("src.roadboard")
+		} else if x < 6 {
+			p = groupsBoard(c.R, 3+c.R.Intn(6))
+			c.Count("src.groupsboard")
 		} else {
 			p = randomPosition(c.R)
 			c.Count("src.random")
